@@ -780,6 +780,14 @@ pub(crate) fn h_include_transparent() {
     let uses1 = !inc1.is_empty() || uses2;
     if uses2 { inc1.push_str("/include inc2.a2l\n"); }
     if uses1 { main.push_str(if quoted { "/include \"inc1.a2l\"\n" } else { "/include inc1.a2l\n" }); }
+    // a further include directive of the main file behind the (possibly nested) one
+    let with_tail = vrt_choice(2) == 1;
+    if with_tail {
+        let extra = "/begin RECORD_LAYOUT rlx FNC_VALUES 1 UBYTE ROW_DIR DIRECT\n/end RECORD_LAYOUT\n";
+        flat.push_str(extra);
+        vrt_fs_write("inc3.a2l", extra.as_bytes());
+        main.push_str("/include inc3.a2l\n");
+    }
     flat.push_str(tail);
     main.push_str(tail);
     vrt_fs_write("inc2.a2l", inc2.as_bytes());
@@ -791,7 +799,7 @@ pub(crate) fn h_include_transparent() {
             vrt_check(log.is_empty(), "C16 a file with includes loads without diagnostics");
             vrt_check(file == flat_file, "C16 loading through /include yields the same model as loading the flattened text");
             let out = file.write_to_string();
-            if uses1 {
+            if uses1 || with_tail {
                 vrt_check(out.contains("/include"), "C16 writing reproduces the include directive");
                 vrt_check(!out.contains("MEASUREMENT") || place[0] == 0, "C16 included elements are not written into the including file");
             }
@@ -1134,4 +1142,124 @@ pub(crate) fn h_ifdata_empty_sequence() {
     t.push_str("\n/end A2ML\n/begin IF_DATA Y 1\n/end IF_DATA\n/end MODULE\n/end PROJECT");
     let r = load_from_string(&t, None, false);
     vrt_observe_bool(r.is_ok());
+}
+
+// ------------------------------------------------------------------ C07 (whole pipeline): unknown elements inside real blocks
+
+/// (block text up to the insertion point list) : documents with numbered insertion points `@k`
+const C07_DOC: &str = "ASAP2_VERSION 1 71
+/begin PROJECT p \"\"
+/begin MODULE m \"\"
+@0
+/begin RECORD_LAYOUT rl
+@1
+FNC_VALUES 1 UBYTE ROW_DIR DIRECT
+@2
+AXIS_PTS_X 2 UBYTE INDEX_INCR DIRECT
+@3
+AXIS_PTS_Y 3 UBYTE INDEX_INCR DIRECT
+@4
+OFFSET_X 4 UBYTE
+@5
+STATIC_RECORD_LAYOUT
+@6
+/end RECORD_LAYOUT
+/begin MEASUREMENT ms \"\" UBYTE NO_COMPU_METHOD 0 0 0 255
+@7
+ECU_ADDRESS 0x10
+@8
+FORMAT \"%6.3\"
+@9
+/end MEASUREMENT
+/begin CHARACTERISTIC ch \"\" MAP 0 rl 0 NO_COMPU_METHOD 0 255
+@10
+/begin AXIS_DESCR STD_AXIS NO_INPUT_QUANTITY NO_COMPU_METHOD 2 0 255
+@11
+FORMAT \"%6.3\"
+@12
+/end AXIS_DESCR
+/begin AXIS_DESCR STD_AXIS NO_INPUT_QUANTITY NO_COMPU_METHOD 2 0 255 /end AXIS_DESCR
+@13
+EXTENDED_LIMITS 0 300
+@14
+/end CHARACTERISTIC
+/begin COMPU_METHOD cm \"\" RAT_FUNC \"%6.3\" \"\"
+@15
+COEFFS 0 1 0 0 0 1
+@16
+/end COMPU_METHOD
+@17
+/end MODULE
+/end PROJECT";
+
+const C07_POINTS: u32 = 18;
+
+fn c07_document(point: u32, payload: &str) -> String {
+    // replace @point by the payload, drop all other markers
+    let mut out = String::new();
+    for line in C07_DOC.lines() {
+        if let Some(num) = line.strip_prefix('@') {
+            if num.parse::<u32>().unwrap() == point {
+                out.push_str(payload);
+                out.push('\n');
+            }
+        } else {
+            out.push_str(line);
+            out.push('\n');
+        }
+    }
+    out
+}
+
+pub(crate) fn h_unknown_in_real_blocks() {
+    let point = vrt_choice(C07_POINTS);
+    let payload = match vrt_choice(4) {
+        0 => "FROBNICATE 1 \"two\" three",
+        1 => "/begin FROBNICATE 1 /begin INNER \"x\" /* c */ /end INNER /end FROBNICATE",
+        2 => "FROBNICATE",
+        _ => "/begin FROBNICATE /begin A /begin B 1 /end B /end A 0x2 /end FROBNICATE",
+    };
+    let reference = load_from_string(&c07_document(99, ""), None, true).unwrap().0;
+    let text = c07_document(point, payload);
+    match load_from_string(&text, None, false) {
+        Ok((file, log)) => {
+            vrt_check(log.len() == 1, "C07 an unknown element is skipped with exactly one warning");
+            vrt_check(file == reference, "C07 the rest of the file is loaded exactly as if the unknown element were not there");
+        }
+        Err(_) => vrt_check(false, "C07 non-strict mode skips an unknown element"),
+    }
+    match load_from_string(&text, None, true) {
+        Ok(_) => vrt_check(false, "C07 strict mode rejects an unknown element"),
+        Err(e) => vrt_check(e.to_string().contains("FROBNICATE"), "C07 the strict-mode error names the unknown element"),
+    }
+}
+
+// ------------------------------------------------------------------ C11: THIS. references of TYPEDEF_CHARACTERISTICs inside structures
+
+pub(crate) fn h_check_this_refs() {
+    // a TYPEDEF_CHARACTERISTIC used as component of 1 or 2 structures; each structure may or may not have the component `ax`
+    let two = vrt_choice(2) == 1;
+    let has1 = vrt_choice(2) == 1;
+    let has2 = vrt_choice(2) == 1;
+    let mut t = String::from("ASAP2_VERSION 1 71 /begin PROJECT p \"\" /begin MODULE m \"\"\n/begin RECORD_LAYOUT rl FNC_VALUES 1 UBYTE ROW_DIR DIRECT AXIS_PTS_X 2 UBYTE INDEX_INCR DIRECT /end RECORD_LAYOUT\n");
+    t.push_str("/begin TYPEDEF_AXIS tax \"\" NO_INPUT_QUANTITY rl 0 NO_COMPU_METHOD 2 0 255 /end TYPEDEF_AXIS\n");
+    t.push_str("/begin TYPEDEF_CHARACTERISTIC tc \"\" CURVE rl 0 NO_COMPU_METHOD 0 255 /begin AXIS_DESCR COM_AXIS NO_INPUT_QUANTITY NO_COMPU_METHOD 2 0 255 AXIS_PTS_REF THIS.ax /end AXIS_DESCR /end TYPEDEF_CHARACTERISTIC\n");
+    t.push_str("/begin TYPEDEF_STRUCTURE s1 \"\" 8 /begin STRUCTURE_COMPONENT vals tc 0 /end STRUCTURE_COMPONENT");
+    if has1 { t.push_str(" /begin STRUCTURE_COMPONENT ax tax 4 /end STRUCTURE_COMPONENT"); }
+    t.push_str(" /end TYPEDEF_STRUCTURE\n");
+    if two {
+        t.push_str("/begin TYPEDEF_STRUCTURE s2 \"\" 8 /begin STRUCTURE_COMPONENT vals tc 0 /end STRUCTURE_COMPONENT");
+        if has2 { t.push_str(" /begin STRUCTURE_COMPONENT ax tax 4 /end STRUCTURE_COMPONENT"); }
+        t.push_str(" /end TYPEDEF_STRUCTURE\n");
+    }
+    t.push_str("/end MODULE /end PROJECT");
+    let (file, _) = load_from_string(&t, None, true).unwrap();
+    let mut n = 0;
+    for e in file.check().iter() {
+        if let A2lError::CrossReferenceError { target_name, .. } = e {
+            if target_name == "ax" { n += 1; }
+        }
+    }
+    let resolves = has1 && (!two || has2);
+    vrt_check((n == 0) == resolves, "C11 a THIS. reference is reported exactly when some containing structure lacks the component");
 }
